@@ -8,7 +8,7 @@ import service
 UNIT = 256
 Q = UNIT // 4
 
-ALT = ['a%d' % i for i in range(1, 13)]
+ALT = ['a%d' % i for i in range(1, 25)]
 CRIT = ['c%d' % i for i in range(1, 7)]
 
 
@@ -123,14 +123,27 @@ def drv_utility(tier, rng):
 
 
 
-def shuffle_group(method, mp, p, n=4):
-    """24 requests that differ in the heuristic's seed only, seeded-random order asked for, identical alternatives"""
-    known = [{'id': ALT[i], 'criteria': {'c1': UNIT}} for i in range(n)]
+def shuffle_group(method, mp, p, n=4, bias=None):
+    """24 requests that differ in the heuristic's seed only, seeded-random order asked for, identical alternatives;
+    with `bias` a second criterion c2 (same value for everybody) is there and one bias changes the criteria first -
+    the option must still be in force when the heuristic runs"""
+    cs = ['c1', 'c2'] if bias else ['c1']
+    known = [{'id': ALT[i], 'criteria': {c: UNIT for c in cs}} for i in range(n)]
     g = []
     for sd in range(24):
-        m2 = dict(mp, randomSeed=11 + 37 * sd, randomAlternativesOrdering=True)
+        m2 = copy.deepcopy(dict(mp, randomSeed=11 + 37 * sd, randomAlternativesOrdering=True))
+        biases = []
+        if bias:
+            if 'weights' in m2:
+                m2['weights']['c2'] = m2['weights']['c1']
+            for t in m2.get('params', {}).get('thresholds', []):
+                t['c2'] = t['c1']
+            if bias == 'criteriaOmission':
+                biases = [{'name': bias, 'props': {'ratio': UNIT // 2, 'min': 1, 'max': 1, 'ordering': 'weakest'}}]
+            else:
+                biases = [{'name': bias, 'props': {'randomSeed': 5, 'newCriterionImportance': UNIT // 2}}]
         req = {'preferenceFunction': method, 'knownAlternatives': copy.deepcopy(known), 'choseToMake': [a['id'] for a in known],
-               'criteria': [crit(0, 'gain')], 'methodParameters': m2, 'biases': []}
+               'criteria': [crit(j, 'gain') for j in range(len(cs))], 'methodParameters': m2, 'biases': biases}
         g.append(base_case(req, refmax=4, pin=True, group={'id': 'x', 'rel': 'shuffle', 'p': p}))
     return g
 
@@ -198,7 +211,19 @@ def drv_majority(tier, rng):
         mp['currentChoice'] = req['knownAlternatives'][n]['id'] if extra and rng.random() < 0.5 else rng.choice(req['choseToMake'])
         req['methodParameters'] = mp
         groups.append([base_case(req, exactprop='C11', refmax=5)])
+    # many alternatives (13 .. 20; helpers that behave differently above a dozen elements), fixed order, deterministic policies
+    for t in range(12 if tier == 'quick' else 200):
+        n = rng.randint(13, 20)
+        m = rng.randint(1, 3)
+        req = heur_req(rng, 'majorityHeuristic', n, m, [0, 1, 2], rng.choice([0, 1]))
+        mp = {'weights': {CRIT[j]: UNIT * rng.choice([1, 1, 2, 3]) for j in range(m)}, 'randomSeed': rng.randint(0, 10 ** 6),
+              'drawResolution': rng.choice(['allow', 'current', 'newer'])}
+        if rng.random() < 0.5:
+            mp['currentChoice'] = rng.choice(req['choseToMake'])
+        req['methodParameters'] = mp
+        groups.append([base_case(req, exactprop='C11', refmax=5)])
     groups.append(shuffle_group('majorityHeuristic', {'weights': {'c1': UNIT}, 'drawResolution': 'current'}, 'C11'))
+    groups.append(shuffle_group('majorityHeuristic', {'weights': {'c1': UNIT}, 'drawResolution': 'current'}, 'C11', bias='criteriaOmission'))
     # targeted: scores that are equal as numbers but differ in the last float bit (0.1 + 0.2 vs 0.3, 0.1 + 0.2 + 0.4 vs 0.7),
     # on either side, under every draw policy
     for ws in ([1, 2, 3], [3, 1, 2], [1, 2, 4, 7], [7, 4, 2, 1], [2, 4, 6], [1, 6, 7]):
@@ -266,6 +291,16 @@ def drv_aspect(tier, rng):
                 if rng.random() < 0.5:
                     c['valuesRange'] = {'min': 0, 'max': UNIT * vmax * 2}
         fn, params = level_source(rng, 'inc', CRIT[:m], types, vmax)
+        if rng.random() < 0.15:      # a criterion on which everybody agrees (observed range of width 0): its threshold is that value
+            j = rng.randrange(m)
+            v = UNIT * rng.randint(1, vmax)
+            for a in req['knownAlternatives']:
+                a['criteria'][CRIT[j]] = v
+            req['criteria'][j].pop('valuesRange', None)
+            if rng.random() < 0.7:
+                req['criteria'][j]['type'] = types[j] = 'cost'
+            while fn == 'thresholds':
+                fn, params = level_source(rng, 'inc', CRIT[:m], types, vmax)
         ws = rng.sample([1, 2, 3, 5], m) if rng.random() < 0.7 else [rng.choice([1, 2]) for _ in range(m)]
         if rng.random() < 0.25:      # distinct weights of any sign: the lightest criteria are still checked, last
             ws = rng.sample([-3, -1, 0, 1, 2, 4], m)
@@ -289,6 +324,7 @@ def drv_aspect(tier, rng):
         groups.append([base_case(req, refmax=4, unit=FU, pin=True)])
     # all four alternatives fail the first check: the ranking is the reverse of the walk order
     groups.append(shuffle_group('aspectEliminationHeuristic', {'function': 'thresholds', 'params': {'thresholds': [{'c1': 2 * UNIT}]}, 'weights': {'c1': UNIT}}, 'C12'))
+    groups.append(shuffle_group('aspectEliminationHeuristic', {'function': 'thresholds', 'params': {'thresholds': [{'c1': 2 * UNIT}]}, 'weights': {'c1': UNIT}}, 'C12', bias='criteriaOmission'))
     return groups
 
 
@@ -307,6 +343,16 @@ def drv_satisfaction(tier, rng):
                 if rng.random() < 0.5:
                     c['valuesRange'] = {'min': 0, 'max': UNIT * vmax * 2}
         fn, params = level_source(rng, 'dec', CRIT[:m], types, vmax)
+        if rng.random() < 0.15:      # a criterion on which everybody agrees (observed range of width 0): its threshold is that value
+            j = rng.randrange(m)
+            v = UNIT * rng.randint(1, vmax)
+            for a in req['knownAlternatives']:
+                a['criteria'][CRIT[j]] = v
+            req['criteria'][j].pop('valuesRange', None)
+            if rng.random() < 0.7:
+                req['criteria'][j]['type'] = types[j] = 'cost'
+            while fn == 'thresholds':
+                fn, params = level_source(rng, 'dec', CRIT[:m], types, vmax)
         mp = {'function': fn, 'params': params, 'randomSeed': rng.randint(0, 10 ** 6)}
         r = rng.random()
         if r < 0.35:
@@ -330,6 +376,7 @@ def drv_satisfaction(tier, rng):
         groups.append([base_case(req, refmax=5)])
     # all four alternatives meet the first level: the ranking is the search order
     groups.append(shuffle_group('satisfactionHeuristic', {'function': 'thresholds', 'params': {'thresholds': [{'c1': 0}]}}, 'C13'))
+    groups.append(shuffle_group('satisfactionHeuristic', {'function': 'thresholds', 'params': {'thresholds': [{'c1': 0}]}}, 'C13', bias='criteriaOmission'))
     return groups
 
 
